@@ -384,6 +384,17 @@ class Gen:
                     self.c(['f', f'{lo}/4']), self.c(['f', f'{hi}/4'])]
         if x < 0.91:
             return ['unop', r.choice(['neg', 'abs', 'pos']), self.pat('num', d - 1)]
+        if x < 0.935:
+            # number (op) pattern: the reflected form of a non-commutative operator
+            o = r.choice(['sub', 'sub', 'div', 'mod'])
+            if o == 'sub':
+                return ['binop', 'sub', self.c(self.num_val()), self.pat('num', d - 1), 'op']
+            vals = [['i', v] for v in (1, 2, 4, -2, 8)] + [['f', '1/2'], ['f', '1/4']]
+            if o == 'mod':
+                vals = [['i', v] for v in (1, 2, 3, 5, 7)] + [['f', '3/2']]
+            right = ['seq', [self.c(r.choice(vals)) for _ in range(r.randint(1, 5))], r.choice([1, 2, 'inf']), 0]
+            return ['binop', o, self.c(['i', r.choice([7, 10, -9, 1])] if r.random() < 0.7 else ['f', r.choice(['7/2', '-5/4'])]),
+                    right, 'op']
         if x < 0.97:
             o = r.choice(['add', 'add', 'sub', 'mul', 'mod', 'min', 'max', 'div'])
             b = self.pat('num', d - 1)
@@ -414,7 +425,9 @@ class Gen:
         ops = [['new']]
         live = 1
         for _ in range(n):
-            if live < ns and r.random() < 0.15:
+            if r.random() < 0.03:
+                ops.append(['mutate', r.choice(['reverse', 'append', 'setitem'])])
+            elif live < ns and r.random() < 0.15:
                 ops.append(['new']); live += 1
             else:
                 ops.append(['next', r.randrange(live)])
@@ -494,7 +507,8 @@ class Check(common.Check):
             lines.append('reset')
             lines.append('pat ' + sx(derive(c['pat'])))
             for o in c['ops']:
-                lines.append('new' if o[0] == 'new' else f'next {o[1]}')
+                if o[0] != 'mutate':           # the model has no caller lists: nothing to do
+                    lines.append('new' if o[0] == 'new' else f'next {o[1]}')
             lines.append(f'den {self.DEN_K} {self.DEN_N}')
         out, err = common.run_driver('Sc3Verif/C13/Driver.lean', lines)
         if out is None:
@@ -507,6 +521,11 @@ class Check(common.Check):
                 cur.append(l)
         final = []
         for c, r in zip(cases, res):
+            k = 1
+            for o in c['ops']:
+                if o[0] == 'mutate':
+                    r.insert(k, 'ok')
+                k += 1
             if len(r) != len(c['ops']) + 2 or r[0] != 'ok':
                 final.append({'ops': r, 'den': None})
             else:
@@ -521,7 +540,9 @@ class Check(common.Check):
             return None
         pos, out = [], []
         for o in case['ops']:
-            if o[0] == 'new':
+            if o[0] == 'mutate':
+                out.append('ok')               # a pattern denotes the values it was built from
+            elif o[0] == 'new':
                 out.append(str(len(pos))); pos.append(0)
             else:
                 i = pos[o[1]]
@@ -617,6 +638,8 @@ class Check(common.Check):
     def _ops_ok(ops):
         live = 1
         for o in ops:
+            if o[0] == 'mutate':
+                continue
             if o[0] == 'new':
                 live += 1
             elif o[1] >= live:
